@@ -20,17 +20,18 @@
      ImplSpec  implementation shaped: ImplH / ImplM model the checks in conn.readMessage,
                handshakeFromP2PMessage, Handshaker.fullHandshake, the scheduler's establish sequence,
                Dispatcher.addPeer / dispatch / handle*, agentstorage/originstorage getPiece, in the
-               order the code performs them.  FixA/FixB/FixC = TRUE model the code with the candidate
-               repairs /verif/fixes/F14a.diff, F14b.diff, F14c.diff; FALSE models the tree as built.
+               order the code performs them.  FixA/FixB/FixC/FixD = TRUE model the code with the
+               repairs /verif/fixes/F14a.diff, F14b.diff, F14c.diff, F14d.diff; FALSE models the tree
+               without them.
 
    TLC checks (MC_PeerInput*.cfg): ImplSpec with the repairs refines Spec and is Safe for the whole
    product of classes in every reachable piece state; as built, the classes with a bad outcome are
-   EXACTLY the classes KnownDefectH / KnownDefectM (the input classes of known findings F14a-c), which
+   EXACTLY the classes KnownDefectH / KnownDefectM (the input classes of known findings F14a-d), which
    is also the predicate the Go driver uses to keep those classes out of the bulk traces.          *)
 EXTENDS Integers, FiniteSets, TLC
 
 CONSTANTS N,                  \* number of pieces of the victim's torrent (pieces 0..N-1)
-          FixA, FixB, FixC    \* implementation model only: TRUE = candidate repair applied
+          FixA, FixB, FixC, FixD    \* implementation model only: TRUE = repair applied
 
 Pieces == 0..(N - 1)
 MinI32 == (0 - 2147483647) - 1
@@ -130,11 +131,12 @@ AllowedM(c, pi, k, hv) ==
 (* Handshake classes (first message on a connection; dir = "in": the attacker dialled the victim,
    "out": the victim dialled the attacker and reads the attacker's reply).                           *)
 BitsC == {"exact_none", "exact_some", "exact_all",   \* bitfield of exactly N bits
+          "exact_stray",                              \* length header exactly N, but the last word has bits >= N set
           "short", "empty", "long_clear", "long_set", \* wrong size; long_set has a bit >= N set
           "hugehdr",                                  \* 8-byte length header far beyond the bytes that follow (allocatable)
           "absurdhdr",                                \* length header 2^64-1
           "trunc"}                                    \* fewer than 8 bytes
-RbC   == {"none", "ok", "badpid", "badbytes", "hugehdr", "long_set"}   \* remoteBitfieldBytes map
+RbC   == {"none", "ok", "badpid", "badbytes", "hugehdr", "long_set", "stray"}   \* remoteBitfieldBytes map
 HC(d, t, b, p, i, n, bi, r) == [dir |-> d, typ |-> t, body |-> b, pid |-> p, ih |-> i, name |-> n, bits |-> bi, rb |-> r]
 
 HsCases ==
@@ -214,13 +216,18 @@ ImplH(h) ==
   IF ~ParsePrefixOK(h) THEN {rej}
   ELSE IF h.bits \in {"trunc", "absurdhdr"} THEN {rej}       \* short read / bitset.New recovers makeslice => type mismatch
   ELSE IF h.bits = "hugehdr" THEN (IF FixC THEN {rej} ELSE {alloc})      \* bitset.New(uint(length)) before any validation
+  ELSE IF h.bits = "exact_stray" /\ FixD THEN {rej}                      \* unmarshalBitfield: set bit beyond the claimed length
   ELSE IF h.rb \in {"badpid", "badbytes"} THEN {rej}
   ELSE IF h.rb = "hugehdr" THEN (IF FixC THEN {rej} ELSE {alloc})
+  ELSE IF h.rb = "stray" /\ FixD THEN {rej}                              \* (the values of the map are otherwise unused)
   \* fullHandshake (out) / scheduler establish sequence (in)
   ELSE IF h.dir = "out" /\ h.pid = "mismatch" THEN {rej}
   ELSE IF h.dir = "in" /\ (h.name # "ok" \/ h.ih # "ok") THEN {rej}     \* archive Stat fails / pending slot does not match
   \* Dispatcher.addPeer
   ELSE IF h.bits = "long_set" THEN (IF FixC THEN {rej} ELSE {panic})    \* numPeersByPiece.Increment(i >= N)
+  \* the length check (FixC) passes: bitset.UnmarshalBinary keeps the stray bits of the tail word, GetAllSet
+  \* (NextSetMany) reports them and numPeersByPiece.Increment(i >= N) goes out of range
+  ELSE IF h.bits = "exact_stray" THEN {panic}
   ELSE IF h.bits \in {"short", "empty", "long_clear"} /\ FixC THEN {rej}
   ELSE {ok}
 
@@ -228,7 +235,7 @@ KnownDefectH(h) ==
   /\ ParsePrefixOK(h)
   /\ \/ h.bits = "hugehdr"                                                                       \* F14c2
      \/ h.bits \notin {"trunc", "absurdhdr", "hugehdr"} /\ h.rb = "hugehdr"                      \* F14c3
-     \/ /\ h.bits = "long_set" /\ h.rb \notin {"badpid", "badbytes", "hugehdr"}                  \* F14c1
+     \/ /\ h.bits \in {"long_set", "exact_stray"} /\ h.rb \notin {"badpid", "badbytes", "hugehdr"}  \* F14c1, F14d
         /\ (h.dir = "out" => h.pid # "mismatch") /\ (h.dir = "in" => h.name = "ok" /\ h.ih = "ok")
 
 -----------------------------------------------------------------------------
